@@ -289,3 +289,89 @@ func VH_C12_event_vs(kind, op int) {
 	}
 	vreach("end")
 }
+
+// ---- expiry observed by concurrent readers -------------------------------------------
+//
+// The fact x and the rule r carry an expiry that has passed when the two clients start:
+// whichever read notices it purges the item. Purging is a write (maps, indexes, storage)
+// and must be ordered like one.
+
+func vhC12SetupExp(kind int) *vhEnv {
+	env := vhNewEnv(kind)
+	t0 := int64(1600000000)
+	vsetNow(t0 * 1000000000)
+	_, err := env.state.Add(env.ctx, "x", Map{"a": "0", "expires": float64(t0 + 10)})
+	vassume(err == nil)
+	rf := vhRuleFact(map[string]interface{}{"a": "?x"})
+	rf["expires"] = float64(t0 + 10)
+	_, err = env.state.Add(env.ctx, "r", rf)
+	vassume(err == nil)
+	_, err = env.state.FindCachedRules(env.ctx, Map{"a": "1"})
+	vassume(err == nil)
+	vsetNow((t0 + 20) * 1000000000)
+	return env
+}
+
+// VH_C12_expiring_pair: no race, deadlock or crash between two clients of which at least
+// one observes (and so purges) the expired items.
+func VH_C12_expiring_pair(kind, opA, opB int) {
+	env := vhC12SetupExp(kind)
+	var wg sync.WaitGroup
+	wg.Add(2)
+	ea := &vhEnv{kind: kind, ctx: env.ctx.SubContext(), store: env.store, state: env.state, loc: env.loc, name: env.name}
+	eb := &vhEnv{kind: kind, ctx: env.ctx.SubContext(), store: env.store, state: env.state, loc: env.loc, name: env.name}
+	go func() {
+		vhC12Op(ea, opA, "A")
+		wg.Done()
+	}()
+	go func() {
+		vhC12Op(eb, opB, "B")
+		wg.Done()
+	}()
+	wg.Wait()
+	vreach("end")
+}
+
+func vhC12SeqExp(kind, opA, opB int, aFirst bool) string {
+	env := vhC12SetupExp(kind)
+	var ra, rb string
+	var errA, errB error
+	if aFirst {
+		ra, errA = vhC12Op(env, opA, "A")
+		rb, errB = vhC12Op(env, opB, "B")
+	} else {
+		rb, errB = vhC12Op(env, opB, "B")
+		ra, errA = vhC12Op(env, opA, "A")
+	}
+	return vhC12Res(ra, errA) + "/" + vhC12Res(rb, errB) + "/" + vhC12Final(env)
+}
+
+// VH_C12_expiring_lin: the outcome is that of a sequential order — in particular a read
+// that notices the expiry of x never deletes what a concurrent client has just written
+// under x.
+func VH_C12_expiring_lin(kind, opA, opB int) {
+	env := vhC12SetupExp(kind)
+	var wg sync.WaitGroup
+	wg.Add(2)
+	ea := &vhEnv{kind: kind, ctx: env.ctx.SubContext(), store: env.store, state: env.state, loc: env.loc, name: env.name}
+	eb := &vhEnv{kind: kind, ctx: env.ctx.SubContext(), store: env.store, state: env.state, loc: env.loc, name: env.name}
+	var ra, rb string
+	var errA, errB error
+	go func() {
+		ra, errA = vhC12Op(ea, opA, "A")
+		wg.Done()
+	}()
+	go func() {
+		rb, errB = vhC12Op(eb, opB, "B")
+		wg.Done()
+	}()
+	wg.Wait()
+	got := vhC12Res(ra, errA) + "/" + vhC12Res(rb, errB) + "/" + vhC12Final(env)
+	ab := vhC12SeqExp(kind, opA, opB, true)
+	ba := vhC12SeqExp(kind, opA, opB, false)
+	if got != ab && got != ba {
+		println("GOT", got, "AB", ab, "BA", ba)
+	}
+	vassert(got == ab || got == ba, "outcome-explained-by-a-sequential-order")
+	vreach("end")
+}
